@@ -48,19 +48,30 @@ CHECKS["C11"] = dict(
 
 CHECKS["C14"] = dict(
     _COMMON, level="fault_enumeration", design_ref="5 (C14)",
-    design=[dict(spec="MCLSCore.tla", cfg="MCLSCoreQ.cfg", workers=8, timeout=600, coverage=False)],
+    design=[dict(spec="MCLSCore.tla", cfg="MCLSCoreQ.cfg", workers=8, timeout=600, coverage=False),
+            dict(spec="MCLSCore.tla", cfg="MCLSCoreB.cfg", workers=2, timeout=300, coverage=False)],
     gen=dict(
         quick=[dict(mode="sim", spec="LSCoreGen.tla", cfg="LSCoreGenSim.cfg", depth=8, num=40, max=300, name="walks",
                     env={"VERIF_LSMODE": "c14"}),
                dict(mode="edges", spec="LSCoreGen.tla", cfg="LSCoreGenFocus.cfg", depth=6, max=700, name="one-context edges",
-                    env={"VERIF_LSMODE": "c14f"})],
+                    env={"VERIF_LSMODE": "c14f"}),
+               # one put call of 80 full-size chunks (20 MiB in one storage batch): pinning upload; request put under a stored root
+               dict(mode="edges", spec="LSCoreGen.tla", cfg="LSCoreGenBulk.cfg", depth=2, max=4, name="large-batch puts",
+                    env={"VERIF_LSMODE": "c14b", "VERIF_LSBULK": "q", "VERIF_BULKN": 80})],
         thorough=[dict(mode="sim", spec="LSCoreGen.tla", cfg="LSCoreGenSim.cfg", depth=10, num=300, max=3000, name="walks",
                        env={"VERIF_LSMODE": "c14"}),
                   dict(mode="edges", spec="LSCoreGen.tla", cfg="LSCoreGenFocus.cfg", depth=7, max=8000, name="one-context edges",
-                       env={"VERIF_LSMODE": "c14f"}, timeout=1800)]),
+                       env={"VERIF_LSMODE": "c14f"}, timeout=1800),
+                  # every put mode x (no context / stored root), then one more operation on the bulk chunks
+                  dict(mode="edges", spec="LSCoreGen.tla", cfg="LSCoreGenBulk.cfg", depth=3, max=80, name="large-batch puts",
+                       env={"VERIF_LSMODE": "c14b", "VERIF_LSBULK": "t", "VERIF_BULKN": 80}, timeout=900),
+                  # 136 chunks = 34 MiB: a limit of half that size would be crossed twice
+                  dict(mode="edges", spec="LSCoreGen.tla", cfg="LSCoreGenBulk.cfg", depth=2, max=4, name="larger-batch puts",
+                       env={"VERIF_LSMODE": "c14b", "VERIF_LSBULK": "q", "VERIF_BULKN": 136}, timeout=900)]),
     corrupt=_cor_c14, selftest_scenarios=100000,
     nontrivial=lambda s: sum(1 for o in s["ops"] if o["op"] in ("put", "set", "gc")) >= 2,
-    rule="TLC-generated histories of puts (all modes/contexts, batches), set pin/unpin/remove/sync and collection runs, executed on a store whose "
+    rule="TLC-generated histories of puts (all modes/contexts, batches; incl. single put calls of 80 full-size chunks = 20 MiB in one storage "
+         "batch, thorough also 136), set pin/unpin/remove/sync and collection runs, executed on a store whose "
          "storage driver logs every write; after each operation with >= 2 storage writes the database is rebuilt from EVERY strict prefix of that "
          "operation's writes (direct puts and batch commits are the atomic units) and reopened; evaluations = events judged incl. one per crash point; "
          "distinct = distinct operation sequence",
